@@ -18,6 +18,7 @@ EXTRA_FILES = ("Proofs/ConfigProofs.v",)
 ASSUMPTIONS = [
     "the structure hash is an opaque byte string in the history model; that equal hashes mean equal stripped JSON is MD5 collision resistance (outside the model)",
     "histories do not delete the uuid file or the accessory's own entity file ('the same storage')",
+    "controllers' pairing identifiers differ from the accessory's device id (premise of C20_identity_stable; its failure is the recorded finding C20:controller-named-as-accessory)",
     "a second pair-setup while already paired is accepted by hc (observed, modelled as an added pairing); HAP would answer Unavailable — outside this property's statement",
 ]
 TRUSTED = ["reference controller of the stack harness for the live pairing operations",
@@ -191,6 +192,9 @@ def gen(rng, tier):
     for i in range(40 if tier == "quick" else 600):
         st = gen_struct(rng)
         add("hist/twice", "hist S:%s:-:%d X S:%s:%s:%d S:%s:%s:%d T" % (st, cat_of(st), st, gen_vals(rng, st), cat_of(st), st, gen_vals(rng, st), cat_of(st)))
+    # a controller pairing under the accessory's own device id (recorded finding)
+    add("hist/self", "hist S:l:-:5 E PSELF T E X S:l:-:5 T E")
+    add("hist/self", "hist S:l,s:-:2 PS:c1 T PSELF T E S:l,s:-:2 T E")
     add("hist/badpin", "hist S:l:-:5 X pin=11111111 S:l:-:5 T pin=00102003 S:l1:-:5 T E")
     return cases
 
@@ -334,6 +338,10 @@ def oracle_hist(c, obs):
             o = nxt("PS")
             if running and o and o.startswith("st2/st4/st6"):
                 ctrls.add(p[1])
+        elif p[0] == "PSELF":
+            o = nxt("PSELF")
+            if running and o and o.startswith("st2/st4/st6"):
+                ctrls.add("SELF")
         elif p[0] in ("AD", "RM"):
             o = nxt(p[0])
             if running and o == "st2":
@@ -383,6 +391,9 @@ def outcome_class(c, obs):
 
 
 def classify(c, obs, why):
+    # identified by the input: a history in which a controller pairs under the accessory's own device id
+    if c["kind"].startswith("hist") and " PSELF" in c["line"]:
+        return "C20:controller-named-as-accessory"
     return None
 
 
